@@ -90,8 +90,10 @@ def expression(draw, names, max_leaves=8, funcs=FUNCS, ops=('+', '-', '*', '/', 
             fn = draw(st.sampled_from(funcs))
             nargs = 1 if fn in ('abs', 'sqrt', 'exp', 'log', 'float') else 2
             args = [build(max(1, (budget - 1) // nargs), depth + 1) for _ in range(nargs)]
-            if strings and draw(st.integers(0, 5)) == 0:
-                args.append(draw(st.sampled_from(['"x"', "'x + y'", '"a fool x1"', "'e5'", '"HH__F"', "'k-1'"])))
+            if strings and draw(chance(1, 4)):
+                args.append(draw(st.sampled_from(['"x"', "'x + y'", '"a fool x1"', "'e5'", '"HH__F"', "'k-1'", '"f (x)"',
+                                                  "'rate (x) in pct'", '"x  ,y"', "'( x )'", '"a ( b"', "'x #1'", '"x=1"',
+                                                  "'1e5 +x'"])))
             return fn + draw(sp) + '(' + (',' + draw(sp)).join(args) + ')'
         if kind == 16 and lists:
             n = draw(st.integers(1, 3))
